@@ -44,10 +44,15 @@ Print Assumptions C09_create_last_key.
 (* FRAME.  Whatever the optional query created, the old document is embedded in
    the new one: every node that existed is still there, at its place, with its
    identity, anchor, tag and scalar value; containers only gained children after
-   the ones they had.  No guard: it also holds when nothing is created and in the
-   situations of the known findings F10b / F25. *)
+   the ones they had.  One exception, and only when the existing prefix of the
+   path ends at a null with segments still to go ([null_prefix]): a null is "no
+   value yet", and the container that holds the created tail takes its place - a
+   NEW object (identity above every identity of the old document).  No guard: the
+   statement also holds when nothing is created and in the situation of the known
+   finding F25. *)
 Theorem C09_create_frame : forall lit segs value vo d d' pc next',
-  wf_doc d -> create_query lit segs value vo d = ROk (d', pc, next') -> embeds d d'.
+  wf_doc d -> create_query lit segs value vo d = ROk (d', pc, next') ->
+  embeds_g (if null_prefix d segs then Some (N.succ (max_oid d)) else None) d d'.
 Proof. exact create_query_frame. Qed.
 Print Assumptions C09_create_frame.
 
@@ -56,14 +61,28 @@ Theorem C09_frame_lookup : forall l d d' n,
   embeds d d' -> lookup d l = Some n ->
   exists n', lookup d' l = Some n' /\ embeds n n' /\ node_info n' = node_info n /\ (is_leaf n = true -> n' = n).
 Proof.
-  intros l d d' n He Hl. destruct (embeds_lookup l d d' n He Hl) as [n' [A B]].
+  intros l d d' n He Hl. destruct (embeds_lookup None l d d' n He Hl) as [n' [A B]].
   exists n'. destruct (embeds_info _ _ B). auto.
 Qed.
 Print Assumptions C09_frame_lookup.
 
+(* ... and beneath a null: every node is found at its place, unchanged as above, or it was a null and is now a
+   container the old document did not hold *)
+Theorem C09_frame_lookup_null : forall lo l d d' n,
+  embeds_g (Some lo) d d' -> lookup d l = Some n ->
+  exists n', lookup d' l = Some n' /\ embeds_g (Some lo) n n' /\
+    ((node_info n' = node_info n /\ (is_leaf n = true -> n' = n)) \/
+     (is_null n = true /\ is_leaf n' = false /\ (lo <= node_oid n')%N)).
+Proof.
+  intros lo l d d' n He Hl. destruct (embeds_lookup (Some lo) l d d' n He Hl) as [n' [A B]].
+  exists n'. split; auto. split; auto. apply embeds_g_info. exact B.
+Qed.
+Print Assumptions C09_frame_lookup_null.
+
 (* RESOLVES.  When something is to be created (guard [creates]: the path is not
-   complete, its existing prefix does not run into a null - F10b - and the tail
-   does not start below a set - F25), walking the path's keys and indexes in the
+   complete and the tail does not start below a set - F25; the clause "the
+   existing prefix does not run into a null" - F10b - went with fix 09e1e7a: the
+   tail is built beneath the null), walking the path's keys and indexes in the
    NEW document reaches the node Nodes.wrap_type built from the supplied value. *)
 Theorem C09_create_resolves_partial : forall lit segs value vo d d' pc next',
   wf_doc d -> creates d segs = true ->
@@ -124,18 +143,35 @@ Example C09_document_nonvacuous :
    end).
 Proof. vm_compute. repeat split. Qed.
 
-(* without the guard RESOLVES is false - known finding F10b at the level of the optional query:
-   {a: null}, a.b.c: the null is yielded, nothing is created, a.b.c does not resolve *)
-Theorem C09_create_resolves_refuted : exists d segs value d' pc next',
-  wf_doc d /\ create_query no_lit segs value None d = ROk (d', pc, next') /\ resolve d' segs = None.
-Proof.
-  exists (NMap (ct 0) [ (sk 1 "a", NLeaf (pl 2) PNone) ]), [SKey "a" (Some 1%N); SKey "b" None; SKey "c" None], (PStr "v").
-  eexists. eexists. eexists. split; [|split].
-  - apply C04delete.wf_docb_sound. vm_compute. reflexivity.
-  - vm_compute. reflexivity.
-  - vm_compute. reflexivity.
-Qed.
-Print Assumptions C09_create_resolves_refuted.
+(* The witness of the former C09_create_resolves_refuted (F10b at the level of the optional query, repaired by
+   fix 09e1e7a): {a: null}, a.b.c - the null used to be yielded, nothing was created and a.b.c did not resolve.
+   Now the guard holds, the null becomes {b: {c: v}} and the path resolves to the value; the frame is the one
+   with the null clause ([null_prefix] is true). *)
+Example C09_create_beneath_null :
+  let d := NMap (ct 0) [ (sk 1 "a", NLeaf (pl 2) PNone) ] in
+  let segs := [SKey "a" (Some 1%N); SKey "b" None; SKey "c" None] in
+  wf_docb d = true /\ creates d segs = true /\ null_prefix d segs = true /\
+  match create_query no_lit segs (PStr "v") None d with
+  | ROk (d', _, _) =>
+      erase d' = DMap [ (PStr "a", DMap [ (PStr "b", DMap [ (PStr "c", DLeaf (PStr "v")) ]) ]) ] /\
+      option_map erase (resolve d' segs) = Some (DLeaf (PStr "v"))
+  | RErr _ => False
+  end.
+Proof. vm_compute. repeat split. Qed.
+
+(* the same beneath a null element of a sequence, reached by a negative index, with an index to pad:
+   {a: [null, 1]}, a[-2][1] := v  ->  {a: [[v, v], 1]} *)
+Example C09_create_beneath_null_element :
+  let d := NMap (ct 0) [ (sk 1 "a", NSeq (ct 2) [NLeaf (pl 3) PNone; iv 4 1]) ] in
+  let segs := [SKey "a" (Some 1%N); SIdx (-2); SIdx 1] in
+  wf_docb d = true /\ creates d segs = true /\
+  match create_query no_lit segs (PStr "v") None d with
+  | ROk (d', _, _) =>
+      erase d' = DMap [ (PStr "a", DSeq [DSeq [DLeaf (PStr "v"); DLeaf (PStr "v")]; DLeaf (PInt 1)]) ] /\
+      padded_ok (Some d) d' segs = true
+  | RErr _ => False
+  end.
+Proof. vm_compute. repeat split. Qed.
 
 (* ... and known finding F25 at that level: {s: !!set {x}}, s.y := v - the member y is added (frame holds),
    but a set member IS its value: the path resolves to "y", never to the supplied "v" *)
@@ -152,15 +188,15 @@ Proof.
 Qed.
 Print Assumptions C09_create_resolves_set_refuted.
 
-(* known finding F10b: {a: null} set a.b.c := v overwrites the null, a.b.c does not exist afterwards *)
+(* the witness of the former C09_create_null_prefix_refuted (F10b through set_value: {a: null} set a.b.c := v
+   gave {a: v}): the tail is built beneath the null and the value lands at a.b.c *)
 Definition docN : node := NMap (ct 0) [ (sk 1 "a", NLeaf (pl 2) PNone) ].
-Theorem C09_create_null_prefix_refuted :
+Example C09_create_null_prefix_set :
   match create_set no_lit no_fl [SKey "a" (Some 1%N); SKey "b" None; SKey "c" None] (PStr "v") FBare None docN with
-  | SDone (d, _) => erase d = DMap [ (PStr "a", DLeaf (PStr "v")) ]
+  | SDone (d, _) => erase d = DMap [ (PStr "a", DMap [ (PStr "b", DMap [ (PStr "c", DLeaf (PStr "v")) ]) ]) ]
   | SFailed _ _ => False
   end.
 Proof. vm_compute. reflexivity. Qed.
-Print Assumptions C09_create_null_prefix_refuted.
 
 (* known finding F25: {s: !!set {x}} set s.y := v replaces the whole set *)
 Definition docS : node := NMap (ct 0) [ (sk 1 "s", NSet (ct 2) [sk 3 "x"]) ].
